@@ -253,21 +253,21 @@ func (r *Report) Finish(verifDir string, known *KnownFile, floor map[string]int)
 		ruleTexts = append(ruleTexts, id+": "+r.Rules[id])
 	}
 	cov := map[string]any{
-		"explanation":         "Static analysis of /repo's current source (type-checked, SSA form, call graph); nothing is executed. Rules applied: " + strings.Join(ruleTexts, " | "),
-		"obligations":         len(r.Obls),
-		"discharged":          nOK,
-		"violations":          nBad,
-		"undecided":           nUnk,
-		"known_findings":      nKnown,
-		"evaluations":         len(r.Obls),
-		"distinct_nontrivial": nNonTrivial,
-		"rule":                "one obligation per rule instance (entry point, call site, field store, table row, path family); non-trivial = the verdict needed a dominance/path/flow/table argument rather than an existence test; distinct = distinct (rule, construct) pairs",
-		"samples":             samples,
-		"build_configurations": r.Configs,
+		"explanation":           "Static analysis of /repo's current source (type-checked, SSA form, call graph); nothing is executed. Rules applied: " + strings.Join(ruleTexts, " | "),
+		"obligations":           len(r.Obls),
+		"discharged":            nOK,
+		"violations":            nBad,
+		"undecided":             nUnk,
+		"known_findings":        nKnown,
+		"evaluations":           len(r.Obls),
+		"distinct_nontrivial":   nNonTrivial,
+		"rule":                  "one obligation per rule instance (entry point, call site, field store, table row, path family); non-trivial = the verdict needed a dominance/path/flow/table argument rather than an existence test; distinct = distinct (rule, construct) pairs",
+		"samples":               samples,
+		"build_configurations":  r.Configs,
 		"repo_functions_loaded": r.Funcs,
-		"per_rule_instances":  perRule,
-		"checker_cmd":         strings.Join(os.Args, " "),
-		"trusted_base":        []string{"go/types and go/ssa of golang.org/x/tools v0.29.0", "the Go toolchain's standard library source as loaded from GOROOT"},
+		"per_rule_instances":    perRule,
+		"checker_cmd":           strings.Join(os.Args, " "),
+		"trusted_base":          []string{"go/types and go/ssa of golang.org/x/tools v0.29.0", "the Go toolchain's standard library source as loaded from GOROOT"},
 	}
 	for k, v := range r.Extra {
 		cov[k] = v
